@@ -671,6 +671,22 @@ func runC17(r *Run, replay *Case) {
 			}
 		}
 	}
+	// a path step is a LITERAL key, field name or index — never the name of a variable whose value would be one: `prod.label` is absent when
+	// `prod` has no key "label", whatever a variable called `label` holds (variables that hold valid keys/indexes of the container, bound in
+	// an inner scope, in the root data, or as a loop-like (index, item) pair)
+	indirect := func() map[string]any {
+		return map[string]any{"prod": map[string]any{"name": "Lamp", "price": 3, "tags": []any{"t0", "t1"}}, "rows": []any{"r0", "r1", map[string]any{"name": "deep"}}, "sm": map[string]string{"k": "v", "name": "smn"},
+			"mi": map[string]int{"one": 1, "name": 5}, "st": S1{Name: "sn", Count: 2, Items: []int{4, 5}}, "label": "name", "i": 1, "field": "Name", "one": "one"}
+	}
+	for _, vk := range [][2]any{{"label", "name"}, {"label", "price"}, {"i", 0}, {"i", 1}, {"idx", "1"}, {"k", "k"}, {"field", "Name"}, {"field", "Count"}, {"key", "tags"}, {"x", 2}, {"one", "one"}, {"n", int64(1)}} {
+		vn := vk[0].(string)
+		for _, cont := range []string{"prod", "rows", "sm", "mi", "st", "prod.tags", "rows[2]", "st.Items"} {
+			for _, form := range []string{"%s.%s", "%s[%s]", "%s.%s.name", "%s.%s[0]"} {
+				e := fmt.Sprintf(form, cont, vn)
+				add(indirect(), []c17Op{{O: "push", M: []any{[]any{vn, toVal(vk[1])}}}, {O: "lookup", K: vn}, {O: "resolve", E: e}, {O: "foreach", E: e}, {O: "pop"}, {O: "resolve", E: e}})
+			}
+		}
+	}
 	n := 4000
 	if r.Thorough() {
 		n = 80000
